@@ -9,6 +9,7 @@ import (
 
 func init() {
 	register("C12", func(c *core.Ctx, tier string) {
+		constructorChain(c, "C12.7")
 		c12CloseWaitsForBuffer(c)
 		c12Shutdown(c)
 		casPolarity(c, "C12.1b")
